@@ -500,8 +500,63 @@ def is_new(level, hist):
     return False
 
 
+# "diamond with a tail" template over FIVE events: an event (C) is reached first by a direct edge
+# (B->C) and later by a cheaper two-hop path (B->D->C) and has an outgoing constraint (C->E);
+# A->B triggers the propagation.  All bound vectors x all insertion orders.
+TEMPLATE_EDGES = [("C", "E"), ("B", "D"), ("D", "C"), ("B", "C"), ("A", "B")]
+TEMPLATE_CLOSE = ("E", "A")
+TEMPLATE_BOUNDS = (-5, -1, 0, 1)
+TEMPLATE_PARTS = 16
+
+
+def template_histories(tier, part):
+    from itertools import permutations, product
+
+    n = 0
+    closes = (None,) if tier == "quick" else (None, 6, -6)
+    for bounds in product(TEMPLATE_BOUNDS, repeat=len(TEMPLATE_EDGES)):
+        for close in closes:
+            edges = [("add", x, y, b) for (x, y), b in zip(TEMPLATE_EDGES, bounds)]
+            if close is not None:
+                edges.append(("add", TEMPLATE_CLOSE[0], TEMPLATE_CLOSE[1], close))
+            n += 1
+            if n % TEMPLATE_PARTS != part:
+                continue
+            for order in permutations(edges):
+                yield tuple(order)
+
+
+def run_template(shard, tier, acc):
+    seen_prefix = set()
+    last = None
+    for hist in template_histories(tier, shard["part"]):
+        for k in range(3, len(hist) + 1):
+            h = hist[:k]
+            if k < len(hist):
+                if h in seen_prefix:
+                    continue
+                seen_prefix.add(h)
+            viols, w, info = judge(h)
+            acc.count("transitions")
+            acc.count("states")
+            acc.outcome("template:" + info.get("outcome", "?"))
+            if info.get("nontrivial"):
+                acc.count("nontrivial")
+            if viols:
+                report(acc, h, viols)
+                break
+            acc.count("traces")
+        last = hist
+    if last is not None:
+        acc.sample({"template": "diamond-with-tail", "history": tj(last)})
+    return acc
+
+
 def shards(tier, seed):
     out = []
+    ncfg = len(configs(tier))
+    for part in range(TEMPLATE_PARTS):
+        out.append({"level": ncfg, "template": "diamond", "part": part})
     for level, cfg in enumerate(configs(tier)):
         out.append({"level": level, "cfg": cfg, "prefix": True})
         sd = [h for h, _u in seeds(cfg)]
@@ -517,6 +572,8 @@ def shards(tier, seed):
 
 def run_shard(shard, tier, seed):
     acc = Acc()
+    if shard.get("template"):
+        return run_template(shard, tier, acc)
     cfg = shard["cfg"]
     cfg = dict(cfg, bounds=tuple(tuple(b) if isinstance(b, list) else b for b in cfg["bounds"]))
     if shard.get("prefix"):
